@@ -53,6 +53,9 @@ class _Sock:
         return self.n
 
 
+SIM_KINDS = {"hello_bcast", "hello_client", "ping_req", "vers_req", "chan_req", "file_req", "wc_req", "rem_req", "fw_req",
+             "keypress", "setvalue", "statq", "wc_set", "ping_resp", "packs", "rferr", "wc_resp"}
+
 OWNER = {
     "ping_req": "Ping", "ping_resp": "Ping", "vers_req": "Version", "vers_resp": "Version",
     "chan_req": "GetChannel", "chan_resp": "GetChannel", "file_req": "ConfigFile", "file_resp": "ConfigFile",
@@ -308,6 +311,8 @@ def run(ctx):
         f.write("CONSTANT WatercareClaimsAll = TRUE\n")
 
     import geckolib.driver as d
+    from ..simnet import SimPeer
+    sim_peer = SimPeer(env.REPO + "/tests/snapshots/default.snapshot")
     classes = _classes()
     loop = asyncio.new_event_loop()
     recs = []
@@ -325,7 +330,7 @@ def run(ctx):
         except Exception as e:  # noqa
             recs.append({"kind": kind, "f": f, "bytes": [], "frame_claims": [], "inner_claims": [],
                          "frame": {"ok": False, "src": [], "dst": [], "content": []}, "dec": {}, "dec2": {}, "decoded": False, "dec_err": f"build:{type(e).__name__}",
-                         "reply": [], "reply_to_sender": False})
+                         "reply": [], "reply_to_sender": False, "has_sim": False, "sim": [], "sim_rf": []})
             continue
         rec = {"kind": kind, "f": f, "bytes": L(b)}
         rec["frame_claims"] = [n for n, mk in classes.items() if mk().can_handle(b, SENDER)]
@@ -370,6 +375,31 @@ def run(ctx):
                 rec["decoded"] = True
         except Exception as e:  # noqa
             rec["dec_err"] = type(e).__name__
+        # the bundled simulator as a responder: what it queues for this datagram, normally and in RF-error mode
+        rec["has_sim"] = kind in SIM_KINDS
+        rec["sim"], rec["sim_rf"] = [], []
+        if rec["has_sim"]:
+            for mode, key in ((False, "sim"), (True, "sim_rf")):
+                sim_peer.rferr = mode
+                try:
+                    outs = sim_peer.on_datagram(b, SENDER)
+                except Exception as e:  # noqa
+                    rec[key] = [{"verb": f"raised:{type(e).__name__}", "swapped": False, "to_sender": False}]
+                    continue
+                for (rb_, dest) in outs:
+                    if rb_.startswith(b"<HELLO>"):
+                        rec[key].append({"verb": "HELLO", "swapped": True, "to_sender": tuple(dest) == SENDER})
+                        continue
+                    ph2 = d.GeckoPacketProtocolHandler()
+                    try:
+                        ph2.handle(rb_, SENDER)
+                        c2 = ph2.packet_content or b""
+                        rec[key].append({"verb": c2[:5].decode("latin1"),
+                                         "swapped": ph2.parms[2] == bytes(f["p2"]) and ph2.parms[3] == bytes(f["p3"]),
+                                         "to_sender": tuple(dest) == SENDER})
+                    except Exception as e:  # noqa
+                        rec[key].append({"verb": f"unparsed:{type(e).__name__}", "swapped": False, "to_sender": False})
+            sim_peer.rferr = False
         recs.append(rec)
     loop.close()
     bad, n = tlc.judge("C04_Judge", recs, "c04", chunk=400, jobs=12, heap="1500m", cfg=jcfg)
@@ -380,7 +410,7 @@ def run(ctx):
             sig["verb"] = "SETWC" if r_["kind"] == "wc_set" else "WCREQ"
         ctx.violation(sig, {"fields": r_["f"], "bytes": bytes(r_["bytes"]).decode("latin1"),
                             "frame": r_["frame"], "inner_claims": r_["inner_claims"], "dec": r_["dec"],
-                            "dec_err": r_["dec_err"]})
+                            "dec_err": r_["dec_err"], "sim": r_.get("sim"), "sim_rf": r_.get("sim_rf")})
     ev.cov["evaluations"] = n
     ev.cov["traces_validated_against_impl"] = n - len(bad)
     ev.cov["distinct_nontrivial"] = len({(r_["kind"], str(r_["f"])) for r_ in recs})
